@@ -152,60 +152,69 @@ Fixpoint all_eq (l : list nat) : bool :=
 
 Definition zs_of (l : list nat) : list Z := map Z.of_nat l.
 
+(** [_create] in stages (named so that Front/CreateFlatProofs.v can reason stage by stage) *)
+
+Definition st_crossings (ci : create_input) : list (list nat) := filter nonempty_c (ci_crossings ci).
+
+(** [Cross, Consistency] + desugared constraints (+ [Sustain]) *)
+Definition st_cons (ci : create_input) : list fconstraint :=
+  [FCross; FConsistency] ++ flat_map (desugar_constraint (ci_design ci)) (ci_constraints ci)
+  ++ (if existsb (fun n => negb (n =? 1)) (ci_sustains ci) then [FSustain] else []).
+
+Definition st_exclude (cons0 : list fconstraint) : list (nat * nat) :=
+  flat_map (fun c => match c with FExclude f l => [(f, l)] | _ => [] end) cons0.
+
+Definition st_act (ci : create_input) : list nat :=
+  filter (fun f => negb (implied (ci_design ci) (st_crossings ci) (st_cons ci) f)) (seq 0 (length (ci_design ci))).
+
+Definition st_alpre (ci : create_input) : nat :=
+  fold_left Nat.max
+    (map (fun fd => match ff_window fd with
+                    | Some w => if ff_complex fd then win_start w else 0
+                    | None => 0
+                    end) (ci_design ci)) 0.
+
+(** the record as far as it is known once [sizes] and [pres] are *)
+Definition st_flat (ci : create_input) (sizes pres : list nat) : flat :=
+  mkflat (ci_design ci) (st_act ci) (st_crossings ci) (ci_sustains ci) (ci_weights ci) sizes pres (ci_alignment ci)
+         (st_alpre ci) 0 0 (ci_rcc ci) (st_exclude (st_cons ci)) (ci_excluded_derived ci) (st_cons ci) (ci_errors_fail ci).
+
+Definition st_sizes (ci : create_input) : list nat :=
+  let fb1 := st_flat ci [] [] in
+  map (fun ce => (crossing_size_no_excl fb1 (fst ce) - snd ce)
+                 * match fst ce with f :: _ => sustain_of fb1 f | [] => 1 end)
+      (combine (st_crossings ci) (ci_exclusions ci)).
+
+Definition st_geometry (ci : create_input) (pres : list nat) (T : Z) : geometry :=
+  let p0 := match st_crossings ci with
+            | [] => 0
+            | _ => match ci_alignment ci with
+                   | PostPreamble => Nat.max (st_alpre ci) (fold_left Nat.max pres 0)
+                   | _ => nth 0 pres 0
+                   end
+            end in
+  let keys := dedup_keys (flat_map (fun cs => fst cs) (combine (st_crossings ci) (ci_sustains ci))) [] in
+  {| g_trials := Z.to_nat T; g_preamble := p0; g_sustain := map (fun f => (f, 1)) keys |}.
+
 Definition create_flat (ci : create_input) : fres :=
-  let design := ci_design ci in
-  let crossings := filter nonempty_c (ci_crossings ci) in
-  if needs_desugar design crossings then FErr FUnsupported else
-  let sustains := ci_sustains ci in
-  let cons0 := [FCross; FConsistency] ++ flat_map (desugar_constraint design) (ci_constraints ci)
-               ++ (if existsb (fun n => negb (n =? 1)) sustains then [FSustain] else []) in
-  let excl := flat_map (fun c => match c with FExclude f l => [(f, l)] | _ => [] end) cons0 in
-  let act := filter (fun f => negb (implied design crossings cons0 f)) (seq 0 (length design)) in
-  let alpre := fold_left Nat.max
-                 (map (fun fd => match ff_window fd with
-                                 | Some w => if ff_complex fd then win_start w else 0
-                                 | None => 0
-                                 end) design) 0 in
-  (* stage 1: enough of the record for sustain counts and the MinimumTrials arithmetic *)
-  let fb1 := mkflat design act crossings sustains (ci_weights ci) [] [] (ci_alignment ci) alpre 0 0 (ci_rcc ci)
-                    excl (ci_excluded_derived ci) cons0 (ci_errors_fail ci) in
-  let sizes := map (fun ce => (crossing_size_no_excl fb1 (fst ce) - snd ce)
-                              * match fst ce with f :: _ => sustain_of fb1 f | [] => 1 end)
-                   (combine crossings (ci_exclusions ci)) in
-  let fb2 := mkflat design act crossings sustains (ci_weights ci) sizes [] (ci_alignment ci) alpre 0 0 (ci_rcc ci)
-                    excl (ci_excluded_derived ci) cons0 (ci_errors_fail ci) in
-  match model_preambles fb2 with
+  if needs_desugar (ci_design ci) (st_crossings ci) then FErr FUnsupported else
+  let sizes := st_sizes ci in
+  match model_preambles (st_flat ci sizes []) with
   | None => FErr FArith
   | Some pres =>
-    let e := match ci_alignment ci with
-             | EqualPreamble => if all_eq pres then None else Some FEqualPreamble
-             | _ => None
-             end in
-    match e with
-    | Some er => FErr er
-    | None =>
-      let fb3 := mkflat design act crossings sustains (ci_weights ci) sizes pres (ci_alignment ci) alpre 0 0 (ci_rcc ci)
-                        excl (ci_excluded_derived ci) cons0 (ci_errors_fail ci) in
-      match model_trials fb3, model_min_trials fb3 with
-      | Some T, Some m =>
-        match model_weights fb3 (ci_mode ci) T (zs_of (ci_weights ci)) with
-        | WOk ws =>
-          let p0 := match crossings with
-                    | [] => 0
-                    | _ => match ci_alignment ci with
-                           | PostPreamble => Nat.max alpre (fold_left Nat.max pres 0)
-                           | _ => nth 0 pres 0
-                           end
-                    end in
-          let keys := dedup_keys (flat_map (fun cs => fst cs) (combine crossings sustains)) [] in
-          let g := {| g_trials := Z.to_nat T; g_preamble := p0; g_sustain := map (fun f => (f, 1)) keys |} in
-          FOk (mkflat design act crossings sustains (map Z.to_nat ws) sizes pres (ci_alignment ci) alpre
-                      (Z.to_nat m) (Z.to_nat T) (ci_rcc ci) excl (ci_excluded_derived ci)
-                      (map (init_wb g) cons0 ++ ci_derivations ci) (ci_errors_fail ci))
-        | WErrEqual => FErr FEqualMode
-        | _ => FErr FArith
-        end
-      | _, _ => FErr FArith
+    if match ci_alignment ci with EqualPreamble => negb (all_eq pres) | _ => false end then FErr FEqualPreamble else
+    let fb3 := st_flat ci sizes pres in
+    match model_trials fb3, model_min_trials fb3 with
+    | Some T, Some m =>
+      match model_weights fb3 (ci_mode ci) T (zs_of (ci_weights ci)) with
+      | WOk ws =>
+        FOk (mkflat (ci_design ci) (st_act ci) (st_crossings ci) (ci_sustains ci) (map Z.to_nat ws) sizes pres
+                    (ci_alignment ci) (st_alpre ci) (Z.to_nat m) (Z.to_nat T) (ci_rcc ci)
+                    (st_exclude (st_cons ci)) (ci_excluded_derived ci)
+                    (map (init_wb (st_geometry ci pres T)) (st_cons ci) ++ ci_derivations ci) (ci_errors_fail ci))
+      | WErrEqual => FErr FEqualMode
+      | _ => FErr FArith
       end
+    | _, _ => FErr FArith
     end
   end.
